@@ -46,6 +46,9 @@ def tasks(tier):
         ("partition 2d, cell-less point first", "run_partition", dict(dim=2, orphan="first")),
         ("partition 3d, cell-less point first", "run_partition", dict(dim=3, orphan="first")),
         ("loadcases 2d, cell-less point first", "run_loadcases", dict(dim=2, orphan="first")),
+        # more than one point without cells (several control points / unused nodes)
+        ("partition 2d, two cell-less points", "run_partition", dict(dim=2, orphan="two")),
+        ("partition 3d, two cell-less points", "run_partition", dict(dim=3, orphan="two")),
     ]
 
 
@@ -62,11 +65,13 @@ class LatticeMesh:
             pts.insert(0, far)
         else:
             pts.append(far)
+        if orphan == "two":
+            pts.append([Fraction(1, 4)] * dim)  # a second point without cells, on none of the lattice planes
         self.coords = pts
         self.points = npmodel.array(pts, dtype=npmodel.DType("float"))
         self.npoints = len(pts)
         # two cells that together use every lattice point (content irrelevant for the dof tools)
-        n = self.npoints - 1
+        n = self.npoints - (2 if orphan == "two" else 1)
         half = n // 2 + 1
         self.cells = np.array([list(range(half)), list(range(n - half, n))])
         self.orphan = n
@@ -75,9 +80,10 @@ class LatticeMesh:
             self.cells = self.cells + 1
             self.orphan = 0
             self.points_with_cells = np.arange(1, n + 1)
+        self.orphans = [self.orphan] + ([n + 1] if orphan == "two" else [])
         self.ncells = 2
         self.ndof = self.npoints * dim
-        self.points_without_cells = np.array([self.orphan])
+        self.points_without_cells = np.array(self.orphans)
         self.cell_type = "fake"
 
 
@@ -217,7 +223,7 @@ def run_partition(col, dim, orphan="last"):
             order = sorted(dofs)
             for k, (p, i) in enumerate(order):
                 pres[off + d * p + i] = val(k, p, i, order)
-        missing = [dim * mesh.orphan + i for i in range(dim)] + [n0 + mesh.orphan]
+        missing = [dim * o + i for o in mesh.orphans for i in range(dim)] + [n0 + o for o in mesh.orphans]
         dof0 = sorted(set(pres) | set(missing))
         dof1 = [k for k in range(ntot) if k not in set(dof0)]
         ext0 = [pres.get(k, uflat[k]) for k in dof0]
@@ -232,7 +238,7 @@ def run_partition(col, dim, orphan="last"):
         e0 = npmodel.to_obj(np.asarray(it.call(appl, [fc, bounds, np.array(d0, dtype=int)], {}))).reshape(-1)
         w0, w1, we = expected(bdefs)
         okk = d0 == w0 and d1 == w1 and sorted(d0 + d1) == list(range(ntot)) and not (set(d0) & set(d1))
-        label = label + ("" if orphan == "last" else " [cell-less point first]")
+        label = label + {"last": "", "first": " [cell-less point first]", "two": " [two cell-less points]"}[orphan]
         col.add("C08.O3", "partition dim=%d %s" % (dim, label),
                 "dof0 == sorted union of the boundaries' unknowns (+ field offset) and the unknowns of points without cells; dof1 == sorted complement; disjoint and covering", okk,
                 "%s: dof0 %s expected %s" % (where, d0[:12], w0[:12]))
@@ -304,7 +310,7 @@ def run_loadcases(col, dim, orphan="last"):
     hi = [Fraction(2 + k) for k in range(dim)]
     count = 0
     mod = "felupe.dof._loadcase:"
-    miss = [dim * mesh.orphan + i for i in range(dim)] + [n0 + mesh.orphan]
+    miss = [dim * o + i for o in mesh.orphans for i in range(dim)] + [n0 + o for o in mesh.orphans]
 
     def face(ax, val):
         return [p for p, c in enumerate(mesh.coords) if c[ax] == val]
@@ -318,7 +324,7 @@ def run_loadcases(col, dim, orphan="last"):
         w0 = sorted(set(pres) | set(miss))
         we = [pres.get(k, uflat[k]) for k in w0]
         okk = d0 == w0 and sorted(d0 + d1) == list(range(n0 + mesh.npoints)) and len(e0) == len(we) and all(is_zero(P(a) - P(b)) for a, b in zip(e0, we))
-        label = label + ("" if orphan == "last" else " [cell-less point first]")
+        label = label + {"last": "", "first": " [cell-less point first]", "two": " [two cell-less points]"}[orphan]
         col.add("C08.O5", "%s dim=%d %s" % (fname, dim, label), "prescribed unknowns and values equal the load case's mechanics table; partition and prescribed values returned consistently", okk,
                 "dof/_loadcase.py %s: prescribed %s expected %s" % (fname, d0[:14], w0[:14]))
 
